@@ -10,6 +10,8 @@ import (
 	"reflect"
 	"runtime"
 	"runtime/metrics"
+	"sort"
+	"strconv"
 	"strings"
 
 	structform "github.com/elastic/go-structform"
@@ -443,9 +445,109 @@ func grown(c *simkit.Choices, x *simkit.Ctx) *simkit.Violation {
 	return nil
 }
 
+// unfoldScaling: a slice (or map) target receives N and then 2N elements of
+// one shape; the exact allocation must about double. Growth policies that stop
+// doubling beyond some byte size are linear for small elements and quadratic
+// for large ones.
+func unfoldScaling(c *simkit.Choices, x *simkit.Ctx) *simkit.Violation {
+	st := x.Stats
+	names := []string{"[]Wide", "[]Simple", "[]*Inner", "[]interface{}", "[]string", "[][]string", "map[string]Simple", "[]map[string]interface{}", "[]Score", "[]int64"}
+	te := model.TypeByName(names[c.N(len(names))])
+	// one element: the fold of a one-element value of the target's type
+	var elem []simkit.Ev
+	isMap := strings.HasPrefix(te.Name, "map[")
+	for try := 0; try < 8 && elem == nil; try++ {
+		evs := reuse.RecordFold(te.Gen(c))
+		if len(evs) > 2 && ((evs[0].K == simkit.KArrStart && !isMap) || (evs[0].K == simkit.KObjStart && isMap)) {
+			body := evs[1 : len(evs)-1]
+			if isMap {
+				body = body[1:] // drop the key: keys are generated below
+			}
+			if end := subtreeLen(body); end > 0 {
+				elem = append([]simkit.Ev{}, body[:end]...)
+			}
+		}
+	}
+	if elem == nil {
+		return nil
+	}
+	n1 := []int{2000, 4000, 10000}[c.N(3)]
+	build := func(n int) []simkit.Ev {
+		open, close := simkit.KArrStart, simkit.KArrEnd
+		if isMap {
+			open, close = simkit.KObjStart, simkit.KObjEnd
+		}
+		out := make([]simkit.Ev, 0, n*(len(elem)+1)+2)
+		out = append(out, simkit.Ev{K: open, I: -1})
+		for i := 0; i < n; i++ {
+			if isMap {
+				out = append(out, simkit.Ev{K: simkit.KKey, S: "k" + strconv.Itoa(i)})
+			}
+			out = append(out, elem...)
+		}
+		return append(out, simkit.Ev{K: close})
+	}
+	sc := &Scenario{Target: te.Name, StreamOf: fmt.Sprintf("%d and %d elements, each: %s", n1, 2*n1, simkit.EventsString(elem, 12)), Events: 2 * n1 * len(elem)}
+	simkit.SetCurrent(sc)
+	st.Eval(2)
+	st.Fault("thousands-of-elements-n-and-2n")
+	st.Distinct(simkit.NewDigest().Str("unfoldscaling" + te.Name).Int(n1).Str(sc.StreamOf).Sum())
+	measure := func(n int) (uint64, error) {
+		evs := build(n)
+		x.Alive()
+		ptr, _, _ := te.NewTarget()
+		u, err := gotype.NewUnfolder(ptr)
+		if err != nil {
+			return 0, err
+		}
+		a0 := exactAlloc()
+		err = deliverAll(u, evs, false)
+		a := exactAlloc() - a0
+		x.Alive()
+		return a, err
+	}
+	var a1, a2 uint64
+	var e1, e2 error
+	if pi := simkit.Guard(func() { a1, e1 = measure(n1); a2, e2 = measure(2 * n1) }); pi != nil {
+		return &simkit.Violation{Kind: "panic", Site: "unfoldscaling" + pi.Site, Detail: pi.Value + "\n" + pi.Stack, Scenario: sc}
+	}
+	if e1 != nil || e2 != nil {
+		st.Probe("unfold-scaling-refused")
+		return nil
+	}
+	if a2 > 3*a1+1<<20 {
+		return &simkit.Violation{Kind: "alloc", Site: "scaling/" + te.Name,
+			Detail: fmt.Sprintf("%d elements make the unfolder allocate %d bytes, %d elements %d bytes (x%.1f for twice the elements)", n1, a1, 2*n1, a2, float64(a2)/float64(a1+1)), Scenario: sc}
+	}
+	st.Probe("unfold-scaling-linear")
+	return nil
+}
+
+// subtreeLen returns the number of events of the value starting at evs[0].
+func subtreeLen(evs []simkit.Ev) int {
+	depth := 0
+	for i, e := range evs {
+		switch e.K {
+		case simkit.KArrStart, simkit.KObjStart:
+			depth++
+		case simkit.KArrEnd, simkit.KObjEnd:
+			depth--
+		case simkit.KKey:
+			continue
+		}
+		if depth == 0 {
+			return i + 1
+		}
+	}
+	return 0
+}
+
 func (Engine) Run(c *simkit.Choices, x *simkit.Ctx) *simkit.Violation {
 	if c.N(60) == 0 {
 		return soak(c, x)
+	}
+	if c.N(500) == 0 {
+		return unfoldScaling(c, x)
 	}
 	if c.N(300) == 0 {
 		return grown(c, x)
@@ -573,6 +675,11 @@ func (Engine) Run(c *simkit.Choices, x *simkit.Ctx) *simkit.Violation {
 			for _, i := range open {
 				if c.N(2) == 0 {
 					l := inflated[c.N(len(inflated))]
+					if ov := overflowLens(te); len(ov) > 0 && c.N(3) == 0 {
+						// a length whose product with an element size of the
+						// target wraps around to a small positive number
+						l = ov[c.N(len(ov))] + int64(c.N(3))
+					}
 					stream[i].I = l
 					sc.Announced = append(sc.Announced, fmt.Sprintf("event %d announces %d", i, l))
 					st.Fault("announced-length-inflated")
@@ -847,4 +954,54 @@ func perEventAllowance(te *model.TypeEntry) uint64 {
 	a := 4096 + 1024*uint64(max)
 	allowance[te.Name] = a
 	return a
+}
+
+var overflow = map[string][]int64{}
+
+// overflowLens returns announced lengths L (positive int64) for which L x s
+// wraps modulo 2^64 to a small positive number, for every slice element size
+// s >= 3 reachable in the target type and for the usual word multiples: a size
+// computation in bytes that is not checked for overflow lets them through.
+func overflowLens(te *model.TypeEntry) []int64 {
+	if o, ok := overflow[te.Name]; ok {
+		return o
+	}
+	sizes := map[uint64]bool{4: true, 8: true, 16: true, 24: true, 32: true}
+	seen := map[reflect.Type]bool{}
+	var walk func(t reflect.Type)
+	walk = func(t reflect.Type) {
+		if seen[t] {
+			return
+		}
+		seen[t] = true
+		switch t.Kind() {
+		case reflect.Slice:
+			sizes[uint64(t.Elem().Size())] = true
+			walk(t.Elem())
+		case reflect.Ptr, reflect.Array, reflect.Map:
+			walk(t.Elem())
+		case reflect.Struct:
+			for i := 0; i < t.NumField(); i++ {
+				walk(t.Field(i).Type)
+			}
+		}
+	}
+	ptr, _, _ := te.NewTarget()
+	walk(reflect.TypeOf(ptr).Elem())
+	var out []int64
+	for s := range sizes {
+		if s < 3 {
+			continue
+		}
+		l := ^uint64(0)/s + 1 // smallest L with L*s >= 2^64
+		if l <= 1<<63-4 {
+			out = append(out, int64(l))
+		}
+		if l2 := 2 * l; l2 > l && l2 <= 1<<63-4 {
+			out = append(out, int64(l2))
+		}
+	}
+	sort.Slice(out, func(i, j int) bool { return out[i] < out[j] })
+	overflow[te.Name] = out
+	return out
 }
